@@ -32,6 +32,7 @@ type Obl struct {
 	Expect   string // "" normal; "sat" for cover (vacuity) queries
 	candName string
 	final    bool
+	Witness  string // reset obligations: formula "the field is assigned at some return" (input that leaves stale state behind)
 }
 
 type loopInfo struct {
@@ -115,6 +116,16 @@ type fnCtx struct {
 	lastAddedVal *Val
 	callOrd      map[string]int
 	assertHit    map[int]bool
+	callSites    []*callSite
+}
+
+// callSite is one static call of an in-module function (recorded in the root context, also for calls made from
+// code inlined into it).
+type callSite struct {
+	callee *ssa.Function
+	reach  string
+	args   []*Val
+	st     *State
 }
 
 type retInfo struct {
